@@ -722,7 +722,7 @@ func (g *gen) jsonLeaf() interface{} {
 	case 4:
 		return float64(g.r.Int63n(1 << 60))
 	default:
-		pool := []rune("ab \"\\/$.[]{}`'é€😀\n\t\u0001Zz09")
+		pool := []rune("ab \"\\/$.[]{}`'é€😀\n\t\u0001Zz09*/|:;~?()&\u00a0\u00ff\ufffd")
 		n := g.r.Intn(6)
 		rs := make([]rune, n)
 		for i := range rs {
